@@ -105,8 +105,14 @@ package lfs
 
 // Clean (no pointer extensions configured): the pointer names SHA-256 and
 // length of exactly what was written to the temp file, which is the input.
+// With extensions: the ext-N lines of the pointer are numbered 0, 1, 2 ... in
+// the order the extensions changed the content (the pointer grammar has one
+// digit for N, and smudge undoes them in reverse pointer order), each under
+// the name of its extension and the id of its input.
 //@ func (*GitFilter).Clean
 //@   props C01 C08
+//@   at call lfs.NewPointerExtension:1 assert arg1__ == len(exts) && len(exts) >= 0
+//@   at call lfs.NewPointer:1 assert arg2__ == exts && arg0__ == oid && arg1__ == size
 //@   requires @inv reader != nil && reads_ok(reader) && f.cfg != nil
 //@   ensures ext_count(old(f.cfg)) == 0 && err_cleanptr(result1) ==> err_ctxbytes(result1) == old(rrest(reader)) && len(old(rrest(reader))) < 1024
 //@   ensures ext_count(old(f.cfg)) == 0 && result1 == nil ==> result0 != nil && result0.Pointer != nil && result0.Oid == hexsha(old(rrest(reader))) && result0.Size == len(old(rrest(reader))) && fdata(result0.Filename) == old(rrest(reader))
@@ -253,7 +259,7 @@ package lfs
 // that name still exists on the remote - a tag of the same name does not
 // count, since the branch's objects may have been collected.
 //@ func calcSkippedRefs
-//@   props C03
+//@   props C03 C16
 //@   loop 1 invariant forall_v(k, has(actualRemoteRefsSet, k), has(actualRemoteRefsSet, k) ==> remotebranch(remote, k))
 //@   loop 2 invariant forall_v(k, has(actualRemoteRefsSet, k), has(actualRemoteRefsSet, k) ==> remotebranch(remote, k))
 //@   loop 2 iter len(skippedRefs) > iter(len(skippedRefs)) ==> remotebranch(remote, cachedRef.Name) && len(skippedRefs) == iter(len(skippedRefs)) + 1 && skippedRefs[iter(len(skippedRefs))] == scat("^", cachedRef.Sha)
@@ -271,15 +277,15 @@ package lfs
 // Every pointer the object scan produces for an allowed path is handed to the
 // callback, and so is the scan's final error: nothing is dropped.
 //@ func (*GitScanner).ScanMultiRangeToRemote
-//@   props C03
+//@   props C03 C16
 //@   requires @inv s != nil && s.cfg != nil
 //@   at call lfs.scanRefsToChanSingleIncludeMultiExclude:1 assert arg2__ == include && s.mode == ScanRangeToRemoteMode
 //@ func scanRefsToChanSingleIncludeMultiExclude
-//@   props C03
+//@   props C03 C16
 //@   at call lfs.scanRefsToChan:1 assert len(arg2__) == 1 && arg2__[0] == include
 
 //@ func scanRefsToChan
-//@   props C03
+//@   props C03 C16
 //@   requires @inv scanner != nil && scanner.Filter != nil && pointerCb != nil
 //@   loop 1 iter lastallow() ==> cbcount() == iter(cbcount()) + 1 && cblast() == p && cblasterr() == nil
 //@   loop 1 iter !lastallow() ==> cbcount() == iter(cbcount())
@@ -313,7 +319,7 @@ package lfs
 // candidate (whatever the size: old pointer formats are short); at or above
 // the cutoff it is reported as a plain Git blob.
 //@ func (*catFileBatchCheckScanner).next
-//@   props C03
+//@   props C03 C16
 //@   requires @inv s != nil && s.s != nil
 //@   ensures str_indexbyte(lasttext(s.s), 32) != -1 && len(lasttext(s.s)) >= str_indexbyte(lasttext(s.s), 32) + 6 && bsub(lasttext(s.s), str_indexbyte(lasttext(s.s), 32) + 1, str_indexbyte(lasttext(s.s), 32) + 5) == "blob" && atoi_ok(bsub(lasttext(s.s), str_indexbyte(lasttext(s.s), 32) + 6, len(lasttext(s.s)))) && str_to_int(bsub(lasttext(s.s), str_indexbyte(lasttext(s.s), 32) + 6, len(lasttext(s.s)))) < s.limit ==> result0 == bsub(lasttext(s.s), 0, str_indexbyte(lasttext(s.s), 32)) && result1 == ""
 //@   ensures str_indexbyte(lasttext(s.s), 32) != -1 && len(lasttext(s.s)) >= str_indexbyte(lasttext(s.s), 32) + 6 && bsub(lasttext(s.s), str_indexbyte(lasttext(s.s), 32) + 1, str_indexbyte(lasttext(s.s), 32) + 5) == "blob" && atoi_ok(bsub(lasttext(s.s), str_indexbyte(lasttext(s.s), 32) + 6, len(lasttext(s.s)))) && str_to_int(bsub(lasttext(s.s), str_indexbyte(lasttext(s.s), 32) + 6, len(lasttext(s.s)))) >= s.limit ==> result0 == "" && result1 == bsub(lasttext(s.s), 0, str_indexbyte(lasttext(s.s), 32))
@@ -390,7 +396,10 @@ package lfs
 // candidate of 1024 bytes or more is recorded as "not a pointer" (nil), a
 // smaller one as whatever the pointer scanner made of it; every recorded path
 // the attribute filter selects is reported exactly once - as a pointer, or as
-// a pointer-scan error when it is not one.
+// a pointer-scan error when it is not one.  Every attribute line read from the
+// tree's .gitattributes files becomes exactly one pattern of the filter: an
+// include when it tracks the path, an exclude in every other case (whatever
+// else the line says, e.g. lockable).
 //@ func runScanTreeForPointers$1
 //@   props C13
 //@   pure
@@ -405,6 +414,9 @@ package lfs
 //@   requires @inv treeblobs != nil
 //@   loop 1 iter path_base2(t.Filename) != ".gitattributes" && t.Size >= 1024 ==> has(pointers, t.Filename) && pointers[t.Filename] == nil
 //@   loop 1 iter path_base2(t.Filename) != ".gitattributes" ==> has(pointers, t.Filename)
+//@   loop 2 iter path.Tracked ==> len(includes) == iter(len(includes)) + 1 && len(excludes) == iter(len(excludes))
+//@   loop 2 iter !path.Tracked ==> len(excludes) == iter(len(excludes)) + 1 && len(includes) == iter(len(includes))
+//@   at call filepathfilter.NewFromPatterns:1 assert arg0__ == includes && arg1__ == excludes
 //@   dead return3
 //@   dead return4
 //@ func lsTreeBlobs
@@ -475,3 +487,8 @@ package lfs
 //@   assumed
 //@   props C05
 //@   modifies fresh, map m.nameMap, map m.nameShaPairs
+
+//@ func NewPointerExtension
+//@   props C01
+//@   modifies fresh
+//@   ensures result != nil && result.Name == name && result.Priority == priority && result.Oid == oid
